@@ -617,13 +617,42 @@ package proto
 
 //@ -- FixedString(N): N is chosen by the caller's typed target (inference only ever creates the
 //@ -- fixed-size variants), so it is a precondition, not hostile input; the allocation is rows * N
-//@ contract (c *ColFixedStr) DecodeColumn(r, rows) (err) props(C06,C07,C08)
+//@ contract (c *ColFixedStr) DecodeColumn(r, rows) (err) props(C01,C06,C07,C08,C16)
 //@   requires c != nil && r != nil && 0 <= rows && rows <= maxRowsInBLock && 0 <= c.Size && c.Size <= 16777215
 //@   modifies c.Buf, contents(c.Buf), r.pos, r.failed, r.b.Buf
 //@   alloc 100000000 * 16777215
 //@   ensures err == nil ==> len(c.Buf) == rows * c.Size [C06] {rows-times-size-bytes}
 //@   ensures err == nil ==> r.failed == old(r.failed)
 //@   ensures old(r.pos) <= r.pos && r.pos <= r.end
+//@ -- C01/C16: whatever the column held before (it truncates itself), a successful decode leaves
+//@ -- exactly the next rows*N stream bytes, consumes exactly those, and accepts every complete input
+//@   ensures rdOK(r, err, rows * c.Size) [C01,C16] {stream}
+//@   ensures err == nil ==> forall k in 0..rows * c.Size :: c.Buf[k] == r.in[old(r.pos) + k] [C01,C16] {bytes-are-the-stream-bytes-whatever-the-column-held}
+//@   ensures r.reliable && !old(r.failed) && old(r.pos) + rows * c.Size <= r.end ==> err == nil [C01] {accepts-complete-input}
+//@   ensures c.Size == old(c.Size)
+//@ contract (c ColFixedStr) EncodeColumn(b) props(C01,C14,C16)
+//@   requires b != nil
+//@   modifies b.Buf
+//@   ensures appendOnly(b, len(c.Buf)) {append-only}
+//@   ensures forall k in 0..len(c.Buf) :: b.Buf[old(len(b.Buf)) + k] == c.Buf[k] {image-is-the-row-bytes-in-order}
+//@ contract (c ColFixedStr) Rows() (n) props(C01,C06,C16)
+//@   requires c.Size >= 0
+//@   ensures c.Size == 0 ==> n == 0
+//@   ensures c.Size > 0 ==> n == tdiv(len(c.Buf), c.Size)
+//@ contract (c *ColFixedStr) Reset() props(C16)
+//@   requires c != nil
+//@   modifies c.Buf
+//@   ensures len(c.Buf) == 0 && c.Size == old(c.Size) {empty-after-reset}
+//@ -- the vectored path hands the same bytes to the writer as one chained slice
+//@ contract (c ColFixedStr) WriteColumn(w) props(C09,C14)
+//@   requires w != nil && wRI(w)
+//@   modifies w.bufOffset, w.vec, w.buf.Buf
+//@   ensures wRI(w) && w.bufOffset == len(w.buf.Buf) && len(w.buf.Buf) == old(len(w.buf.Buf)) {staged-bytes-cut-first}
+//@ contract lemmaColFixedStrRoundTrip(x) (y, r, err) props(C01)
+//@   requires 0 < x.Size && x.Size <= 16777215 && len(x.Buf) == tdiv(len(x.Buf), x.Size) * x.Size && tdiv(len(x.Buf), x.Size) <= maxRowsInBLock
+//@   ensures err == nil {decodes}
+//@   ensures r.pos == r.end {consumes-exactly-the-encoded-bytes}
+//@   ensures len(y.Buf) == len(x.Buf) && forall k in 0..len(x.Buf) :: y.Buf[k] == x.Buf[k] {same-bytes-hence-same-rows}
 
 //@ contract (c *ColRaw) DecodeColumn(r, rows) (err) props(C06,C07,C08)
 //@   requires c != nil && r != nil && 0 <= rows && rows <= maxRowsInBLock && 0 <= c.Size && c.Size <= 16777215
@@ -641,21 +670,53 @@ package proto
 //@   ensures err == nil ==> r.failed == old(r.failed)
 //@   ensures old(r.pos) <= r.pos && r.pos <= r.end
 
-//@ contract (c *ColInterval) DecodeColumn(r, rows) (err) props(C06,C07,C08)
+//@ -- Interval columns are Int64 columns with a scale: the wire image is that of the values
+//@ contract (c *ColInterval) DecodeColumn(r, rows) (err) props(C01,C06,C07,C08,C16)
 //@   requires c != nil && r != nil && 0 <= rows && rows <= maxRowsInBLock && len(c.Values) == 0
 //@   modifies c.Values, contents(c.Values), r.pos, r.failed, r.b.Buf
 //@   alloc 800000000
 //@   ensures err == nil ==> len(c.Values) == rows [C06] {rows}
 //@   ensures err == nil ==> r.failed == old(r.failed)
 //@   ensures old(r.pos) <= r.pos && r.pos <= r.end
+//@   ensures err == nil ==> r.pos == old(r.pos) + 8 * rows [C01,C16] {consumes-exactly}
+//@   ensures err == nil ==> forall e in 0..rows :: c.Values[e] == i64(unle64(r.in[old(r.pos) + 8 * e], r.in[old(r.pos) + 8 * e + 1], r.in[old(r.pos) + 8 * e + 2], r.in[old(r.pos) + 8 * e + 3], r.in[old(r.pos) + 8 * e + 4], r.in[old(r.pos) + 8 * e + 5], r.in[old(r.pos) + 8 * e + 6], r.in[old(r.pos) + 8 * e + 7])) [C01,C16] {values}
+//@   ensures r.reliable && !old(r.failed) && old(r.pos) + 8 * rows <= r.end ==> err == nil [C01] {accepts-complete-input}
+//@   ensures c.Scale == old(c.Scale)
+//@ contract (c ColInterval) EncodeColumn(b) props(C01,C16)
+//@   requires len(c.Values) == 0 || b != nil
+//@   modifies b.Buf
+//@   ensures len(c.Values) > 0 ==> appendOnly(b, 8 * len(c.Values)) && imgColInt64(arrayof(b.Buf), offset(b.Buf) + old(len(b.Buf)), c.Values, len(c.Values)) {image-of-the-values}
+//@   ensures len(c.Values) == 0 && b != nil ==> appendOnly(b, 0)
+//@ contract (c *ColInterval) Reset() props(C16)
+//@   requires c != nil
+//@   modifies c.Values
+//@   ensures len(c.Values) == 0 && c.Scale == old(c.Scale) {empty-after-reset}
+//@ contract (c ColInterval) Rows() (n) props(C01,C06,C16)
+//@   ensures n == len(c.Values)
 
-//@ contract (c *ColPoint) DecodeColumn(r, rows) (err) props(C06,C07,C08)
+//@ -- Point on the wire: all X coordinates (Float64, little endian), then all Y coordinates
+//@ contract (c *ColPoint) DecodeColumn(r, rows) (err) props(C01,C06,C07,C08,C16)
 //@   requires c != nil && r != nil && 0 <= rows && rows <= maxRowsInBLock && len(c.X) == 0 && len(c.Y) == 0
 //@   modifies c.X, c.Y, contents(c.X), contents(c.Y), r.pos, r.failed, r.b.Buf
 //@   alloc 1600000000
 //@   ensures err == nil ==> len(c.X) == rows && len(c.Y) == rows [C06] {rows}
 //@   ensures err == nil ==> r.failed == old(r.failed)
 //@   ensures old(r.pos) <= r.pos && r.pos <= r.end
+//@   ensures err == nil ==> r.pos == old(r.pos) + 16 * rows [C01,C16] {consumes-exactly-both-coordinate-vectors}
+//@   ensures err == nil ==> forall e in 0..rows :: c.X[e] == unle64(r.in[old(r.pos) + 8 * e], r.in[old(r.pos) + 8 * e + 1], r.in[old(r.pos) + 8 * e + 2], r.in[old(r.pos) + 8 * e + 3], r.in[old(r.pos) + 8 * e + 4], r.in[old(r.pos) + 8 * e + 5], r.in[old(r.pos) + 8 * e + 6], r.in[old(r.pos) + 8 * e + 7]) [C01,C16] {x-values}
+//@   ensures err == nil ==> forall e in 0..rows :: c.Y[e] == unle64(r.in[old(r.pos) + 8 * rows + 8 * e], r.in[old(r.pos) + 8 * rows + 8 * e + 1], r.in[old(r.pos) + 8 * rows + 8 * e + 2], r.in[old(r.pos) + 8 * rows + 8 * e + 3], r.in[old(r.pos) + 8 * rows + 8 * e + 4], r.in[old(r.pos) + 8 * rows + 8 * e + 5], r.in[old(r.pos) + 8 * rows + 8 * e + 6], r.in[old(r.pos) + 8 * rows + 8 * e + 7]) [C01,C16] {y-values-follow-all-x-values}
+//@   ensures r.reliable && !old(r.failed) && old(r.pos) + 16 * rows <= r.end ==> err == nil [C01] {accepts-complete-input}
+//@ contract (c ColPoint) EncodeColumn(b) props(C01,C16)
+//@   requires len(c.X) == len(c.Y)
+//@   modifies b.Buf
+//@   ensures b != nil ==> appendOnly(b, 16 * len(c.X)) {append-only}
+//@   ensures b != nil ==> imgColFloat64(arrayof(b.Buf), offset(b.Buf) + old(len(b.Buf)), c.X, len(c.X)) && imgColFloat64(arrayof(b.Buf), offset(b.Buf) + old(len(b.Buf)) + 8 * len(c.X), c.Y, len(c.Y)) {x-vector-then-y-vector}
+//@ contract (c *ColPoint) Reset() props(C16)
+//@   requires c != nil
+//@   modifies c.X, c.Y
+//@   ensures len(c.X) == 0 && len(c.Y) == 0 {empty-after-reset}
+//@ contract (c ColPoint) Rows() (n) props(C01,C06,C16)
+//@   ensures n == len(c.X)
 
 //@ contract (c *ColJSONStr) DecodeColumn(r, rows) (err) props(C06,C07,C08)
 //@   requires c != nil && r != nil && 0 <= rows && rows <= maxRowsInBLock
@@ -814,10 +875,16 @@ package proto
 // ---------------------------------------------------------------------------
 // C06: the remaining decoders - thin safety contracts (every index/slice/nil/alloc/overflow
 // obligation of the body under the weakest precondition on the input bytes).
-//@ contract (c *ColJSONStr) DecodeState(r) (err) props(C06,C07,C08)
+//@ contract (c *ColJSONStr) DecodeState(r) (err) props(C01,C06,C07,C08)
 //@   requires c != nil && r != nil
 //@   modifies r.pos, r.failed, r.b.Buf
 //@   ensures err == nil ==> r.failed == old(r.failed)
+//@ -- the JSON-as-string state prefix is the serialization version 1 as a little-endian uint64
+//@   ensures err == nil ==> r.pos == old(r.pos) + 8 && unle64(r.in[old(r.pos)], r.in[old(r.pos) + 1], r.in[old(r.pos) + 2], r.in[old(r.pos) + 3], r.in[old(r.pos) + 4], r.in[old(r.pos) + 5], r.in[old(r.pos) + 6], r.in[old(r.pos) + 7]) == 1 [C01] {accepts-only-version-1-and-consumes-8-bytes}
+//@ contract (c *ColJSONStr) EncodeState(b) props(C01)
+//@   requires b != nil
+//@   modifies b.Buf
+//@   ensures appendOnly(b, 8) && unle64(b.Buf[old(len(b.Buf))], b.Buf[old(len(b.Buf)) + 1], b.Buf[old(len(b.Buf)) + 2], b.Buf[old(len(b.Buf)) + 3], b.Buf[old(len(b.Buf)) + 4], b.Buf[old(len(b.Buf)) + 5], b.Buf[old(len(b.Buf)) + 6], b.Buf[old(len(b.Buf)) + 7]) == 1 {writes-version-1}
 //@ contract (p *Parameter) Decode(r) (err) props(C06,C07,C08)
 //@   requires p != nil && r != nil
 //@   modifies p.Key, p.Value, r.pos, r.failed, r.b.Buf
